@@ -85,6 +85,12 @@ def main():
         if not props:
             print("%s: no check for %s yet" % (sid, own))
             continue
+        if os.path.exists(os.path.join(SEEDED, sid, "SUPERSEDED")):
+            print("%s: superseded on the current tree (see NOTE.md)" % sid)
+            matrix.setdefault(sid, {})["apply"] = "superseded"
+            matrix[sid].pop("checks", None)
+            json.dump(matrix, open(mpath, "w"), indent=1, sort_keys=True)
+            continue
         which = apply_seed(sid)
         if which is None:
             print("%s: PATCH DOES NOT APPLY to current tree (needs port)" % sid)
